@@ -83,6 +83,8 @@ class C18(Prop):
                     ops.append("v:-/" + gen.hexs(c))
             lines.append("%s %s %s" % ("wcs" if i % 3 != 0 else "wcsx", random_script(rng), ",".join(ops) if ops else "-"))
         yield "grammar-scripted", lines
+        from .c06 import literal_ops
+        yield "literal-formatted-writes", ["wcs %s %s" % (random_script(rng) if i % 3 == 0 else "-", literal_ops(rng)) for i in range(n // 3)]
         # single calls far above any internal buffer or console limit (a `write` must consume all it reports)
         lines = []
         sizes = [40000, 70000, (1 << 20) + 4097] + ([(1 << 22) + 17] if tier == "thorough" else [])
